@@ -110,6 +110,8 @@ Pass(t, v) ==
   CASE t.kind = "gte"   -> v >= t.n
     [] t.kind = "lte"   -> v <= t.n
     [] t.kind = "eq"    -> v = t.n
+    [] t.kind = "gt"    -> v > t.n
+    [] t.kind = "lt"    -> v < t.n
     [] t.kind = "min"   -> v >= t.n
     [] t.kind = "max"   -> v <= t.n
     [] t.kind = "len"   -> v = t.n
